@@ -12,6 +12,7 @@ C03 — Expansion leaves only resolvable cycle cut-points; acyclic specification
 -/
 import SpecModel.Props.ExpandCore
 import SpecModel.Expand.Check
+import SpecModel.Expand.SideConditions
 import SpecModel.Props.C03Denorm
 
 namespace SpecModel.Props.C03
@@ -47,5 +48,19 @@ theorem onCycle_checker_sound [DecidableEq L] {W : World K L} {n : Nat} {k : K} 
 example : onCycleB ExpandCore.Wx 10 0 = true ∧ onCycleB ExpandCore.Wx 10 2 = false := by decide
 example : checkCuts ExpandCore.Wx 10 (.node "root" [.node "a" [.node "b" [.ref 0]]] : Tree Nat String) = true := by decide
 example : checkCuts ExpandCore.Wx 10 (.node "root" [.ref 2] : Tree Nat String) = false := by decide
+
+
+/-! ### Side conditions on the shape of expander.go (regenerated facts, `decide`) -/
+
+/-- every schema keyword that can hold a sub-schema (regenerated struct table of SchemaProps) is a position
+`expandSchema` / `expandItems` recurse into (regenerated from their AST), and conversely -/
+theorem side_positions_complete :
+    SpecModel.Expand.Side.positionsComplete SpecModel.Gen.structs SpecModel.Gen.expandPositions = true := by decide
+
+theorem side_sections_complete : SpecModel.Expand.Side.sectionsComplete SpecModel.Gen.specSections = true := by decide
+
+theorem side_operations_complete :
+    SpecModel.Expand.Side.operationsComplete SpecModel.Gen.pathItemOperations SpecModel.Gen.pathItemOperationFields = true := by
+  decide
 
 end SpecModel.Props.C03
